@@ -172,3 +172,44 @@ for _known in (True, False):
              ensures=[('post.answer', 'len(self.sdres) == 1 and self.sdres[0][0] == rcvd_pdu.sdreq[0][0] and '
                                       'self.sdres[0][1] == (self.llc.snl[b"urn:nfc:sn:snep"] if %s else 0)' % _known)],
              raises={})
+
+# the same for an SNL PDU with any number of lookup requests in any order of bound and unbound names: each answer
+# is right when it is appended, from whatever the previous requests left in the loop's locals (invariant checked
+# for an arbitrary iteration: the request at position _k-1 got the address bound under its name, or 0)
+_SNEP, _NONE = b'urn:nfc:sn:snep', b'urn:nfc:sn:none'
+_EXP = ('(self.llc.snl[b"urn:nfc:sn:snep"] if rcvd_pdu.sdreq[%s][1] == b"urn:nfc:sn:snep" else '
+        '(1 if rcvd_pdu.sdreq[%s][1] == b"urn:nfc:sn:sdp" else 0))')
+contract(L + 'ServiceDiscovery.enqueue', 'C17',
+         dict(self=Obj(L + 'ServiceDiscovery', _partial=False,
+                       llc=Obj(L + 'LogicalLinkController', lock=Lock(),
+                               snl=DictOf({b'urn:nfc:sn:sdp': 1, _SNEP: Int(2, 63)})),
+                       snl=DictOf({}), sent=DictOf({}), tids=Fixed([]), sdreq=Fixed([], 'deque'),
+                       sdres=Fixed([], 'deque'), lock=Lock(), resp=Cond('lock'), mode=0),
+              rcvd_pdu=Obj(SNLP, _partial=False, ptype=9, dsap=1, ssap=1, sdres=Fixed([]),
+                           sdreq=ListOf(Tup(Byte(), Bytes(1, 30))))),
+         name='C17/sdp.responder[many]',
+         ensures=[('post.count', 'len(self.sdres) == len(rcvd_pdu.sdreq)'),
+                  ('post.last', 'len(self.sdres) == 0 or (self.sdres[-1][0] == rcvd_pdu.sdreq[-1][0] and '
+                                'self.sdres[-1][1] == %s)' % (_EXP % ('-1', '-1')))],
+         raises={},
+         loops={('nfc.llcp.llc.ServiceDiscovery.enqueue', 'For', 1): LoopSpec(
+             invariant=['len(self.sdres) == _k',
+                        '_k == 0 or (self.sdres[_k - 1][0] == rcvd_pdu.sdreq[_k - 1][0] and '
+                        'self.sdres[_k - 1][1] == %s)' % (_EXP % ('_k - 1', '_k - 1'))],
+             havoc={'self.sdres': ListOf(Tup(Byte(), Int(0, 63)), kind='deque'), 'sap': Int(0, 63),
+                    'tid': Byte(), 'name': Bytes(1, 30)})})
+
+# connect-by-name on a socket that was refused before: a connect answered with DM leaves the socket CLOSED and
+# *unconnected* (peer as before, i.e. None), so that a later connect() on the same socket accepts the CC from
+# whatever address the name is bound to then (the access point filters inbound PDUs by socket.peer)
+from .c05_dlc import dlc as _dlc, state as _state   # noqa
+_DMP = Obj('nfc.llcp.pdu:DisconnectedMode', ptype=7, dsap=SAP(), ssap=SAP(), reason=Byte())
+for _prop in ('C17', 'C05'):
+    contract(T + 'DataLinkConnection.connect', _prop,
+             dict(self=_dlc(state=_state(1), peer=None, send_queue=Fixed([], 'deque'),
+                            recv_queue=Fixed([_DMP], 'deque'), recv_miu=Int(128, 2175), recv_win=Int(0, 15)),
+                  dest=OneOf(Int(0, 63), Const(b'urn:nfc:sn:snep'))),
+             name='%s/connect.refused' % _prop,
+             ensures=[('post', 'False')],
+             raises={'nfc.llcp.err:ConnectRefused': ['self.peer is None', 'self.state.value == 1',
+                                                     'exc.reason == old(self.recv_queue[0].reason)']})
